@@ -91,6 +91,8 @@ impl FlushWorker {
                         .await;
                 }
 
+                #[cfg(sneldb_verif)]
+                crate::verif::point("flush.registered");
                 let flusher = Flusher::new(
                     memtable,
                     segment_id,
@@ -139,6 +141,8 @@ impl FlushWorker {
                         }
 
                         // Verify segment is queryable before clearing passive buffer
+                        #[cfg(sneldb_verif)]
+                        crate::verif::point("flush.written");
                         let verifier = SegmentVerifier::new(base_dir, shard_id);
                         let is_queryable = verifier
                             .verify_with_retry(
@@ -159,6 +163,8 @@ impl FlushWorker {
                         }
 
                         // Only update segment_ids after successful verification
+                        #[cfg(sneldb_verif)]
+                        crate::verif::point("flush.verified");
                         let segment_name = format!("{:05}", segment_id);
                         {
                             let mut segs = segment_ids.write().unwrap();
@@ -178,6 +184,8 @@ impl FlushWorker {
 
                         // Mark as verified and clear passive buffer
                         if track_lifecycle {
+                            #[cfg(sneldb_verif)]
+                            crate::verif::point("flush.published");
                             lifecycle.mark_verified(segment_id).await;
 
                             if let Some(passive) = lifecycle.clear_and_complete(segment_id).await {
@@ -214,8 +222,12 @@ impl FlushWorker {
                                 "Cleaning up WAL files"
                             );
                         }
+                        #[cfg(sneldb_verif)]
+                        crate::verif::point("flush.passive_cleared");
                         let cleaner = WalCleaner::new(shard_id);
                         cleaner.cleanup_up_to(segment_id + 1);
+                        #[cfg(sneldb_verif)]
+                        crate::verif::point("flush.wal_cleaned");
                     }
                 }
 
@@ -241,6 +253,8 @@ impl FlushWorker {
                 }
             };
 
+            #[cfg(sneldb_verif)]
+            crate::verif::point("flush.task_done");
             self.flush_progress.mark_completed(flush_id);
 
             // Always send completion signal, even on error/panic
